@@ -93,6 +93,9 @@ def closure_entries(prog):
           (f'{TI}.horizontal_diffusion_step_filter', None), (f'{TI}.digital_filter_initialization', None), (f'{FI}._make_filter_fn', None)]
 
 
+BRANCHING = {'jax.lax.cond': 0, 'jax.lax.switch': 0, 'jax.lax.while_loop': 2, 'jax.lax.select_n': 0}
+
+
 def hazards_in(term, is_data):
   """[(hazard name, term)] for hazardous operations applied to data-dependent values."""
   out = []
@@ -100,6 +103,11 @@ def hazards_in(term, is_data):
     if t.k == 'call' and t.a[0].k == 'ext':
       n = t.a[0].a[0]
       args = list(t.a[1]) + [v for _, v in t.a[2]]
+      if n in BRANCHING and len(args) > BRANCHING[n] and isinstance(args[BRANCHING[n]], Term) and sym.contains(args[BRANCHING[n]], is_data):
+        # only the taken branch is differentiated: at states on the branch boundary (e.g. a field that is exactly zero) the
+        # derivative is that of the wrong branch unless both agree to first order
+        out.append((n + ' on a data-dependent predicate', t))
+        continue
       if (n in ANNIHILATING or n in NONSMOOTH) and any(sym.contains(x, is_data) for x in args if isinstance(x, Term)):
         out.append((n, t))
     elif t.k == 'call' and t.a[0].k == 'attr' and t.a[0].a[1] in ('astype', 'item', 'round', 'argmax', 'argmin', 'argsort') and sym.contains(t.a[0].a[0], is_data):
